@@ -1,5 +1,6 @@
 import UnytModel.Driver
 import UnytModel.Ops.C01
+import UnytModel.Ops.C01History
 open Unyt
 
-def main : IO Unit := runDriver (baseHandlers ++ [opsC01])
+def main : IO Unit := runDriver (baseHandlers ++ [opsC01History, opsC01])
